@@ -302,7 +302,11 @@ class EnumField(UintField):
     def m2i(self, pkt, val):
         val = UintField.m2i(self, pkt, val)
         if val is not None:
-            val = self.enum(val)
+            try:
+                val = self.enum(val)
+            except ValueError:
+                # a value without a name is kept as the number it is
+                pass
         return val
 
 
